@@ -1,4 +1,5 @@
 import PytezosModel.Proofs.C14Coll
+import PytezosModel.Proofs.C14Dict
 /-!
 # C14 — sets and maps behave like sorted dictionaries under any update history
 
@@ -130,6 +131,30 @@ theorem obs_set_members (h : StrictTotal eq lt) {s : List κ} (hs : InvSet lt s)
     (z ∈ Set.add eq lt s x ↔ z = x ∨ z ∈ s) ∧ (z ∈ Set.remove eq s x ↔ z ∈ s ∧ z ≠ x) := by
   rw [add_eq h hs, remove_eq h hs]
   exact ⟨mem_insertKey_iff h x hs z, mem_eraseKey h x hs z⟩
+
+/-- the dictionary laws, on the implementation: after UPDATE (insert / replace with `some v`, delete with `none`) GET of the
+same key gives the new binding, GET of any other key is unchanged -/
+theorem get_update_same (h : StrictTotal eq lt) {m : List (κ × ν)} (hm : InvMap lt m) (k : κ) (v : Option ν) :
+    Map.get eq (Map.update eq lt m k v).2 k = v := by
+  have hs : InvMap lt (Map.update eq lt m k v).2 := by
+    rw [update_eq h hm]; cases v
+    · simp only [InvMap, eraseKV_keys]; exact eraseKey_strict h k hm
+    · simp only [InvMap, insertKV_keys]; exact insertKey_strict h k _ hm
+  rw [get_eq h k _ hs, update_eq h hm]
+  cases v with
+  | none => exact find_eraseKV_same h k m hm
+  | some x => exact find_insertKV_same h k x m hm
+
+theorem get_update_other (h : StrictTotal eq lt) {m : List (κ × ν)} (hm : InvMap lt m) (k k' : κ) (v : Option ν)
+    (hne : k' ≠ k) : Map.get eq (Map.update eq lt m k v).2 k' = Map.get eq m k' := by
+  have hs : InvMap lt (Map.update eq lt m k v).2 := by
+    rw [update_eq h hm]; cases v
+    · simp only [InvMap, eraseKV_keys]; exact eraseKey_strict h k hm
+    · simp only [InvMap, insertKV_keys]; exact insertKey_strict h k _ hm
+  rw [get_eq h k' _ hs, get_eq h k' m hm, update_eq h hm]
+  cases v with
+  | none => exact find_eraseKV_other h k k' hne m hm
+  | some x => exact find_insertKV_other h k k' x hne m hm
 
 /-! ### instance: `int` keys (Python ints with `==` and `<`) -/
 def intEq (a b : Int) : Bool := a == b
